@@ -72,7 +72,11 @@
 use std::io;
 
 use std::marker::PhantomData;
+#[cfg(not(feature = "verif_hooks"))]
 use std::sync::mpsc;
+
+#[cfg(feature = "verif_hooks")]
+use crate::verif_hooks::{crossbeam_utils, mpsc, scoped_threadpool};
 
 pub trait Reader {
     type DataSet: Send;
